@@ -1,0 +1,41 @@
+//! Accessors for the external verification harness (feature `verif-hooks`).
+//! Each function forwards to an existing `Exact<Complex>` method; there is no logic here.
+
+use super::Complex;
+use crate::error::Interrupt;
+use crate::num::Exact;
+use crate::num::hooks_bigrat::{Raw as RawRat, from_raw as rat_from_raw, to_raw as rat_to_raw};
+use crate::num::real::Real;
+
+/// `(real part, imaginary part)`, both exact rationals exactly as stored.
+pub(crate) type Raw = (RawRat, RawRat);
+
+fn from_raw(r: &Raw) -> Exact<Complex> {
+	Exact::new(
+		Complex {
+			real: Real::from(rat_from_raw(&r.0)),
+			imag: Real::from(rat_from_raw(&r.1)),
+		},
+		true,
+	)
+}
+
+fn part(r: &Real) -> Result<RawRat, String> {
+	r.verif_simple()
+		.map(rat_to_raw)
+		.ok_or_else(|| "not a plain rational".to_string())
+}
+
+/// Binary operation by name on complex numbers with rational parts; returns the raw parts and the `exact` flag.
+pub(crate) fn op2<I: Interrupt>(op: &str, a: &Raw, b: &Raw, int: &I) -> Result<(Raw, bool), String> {
+	let x = from_raw(a);
+	let y = from_raw(b);
+	let r = match op {
+		"cadd" => x.add(y, int),
+		"cmul" => x.mul(&y, int),
+		"cdiv" => x.div(y, int),
+		_ => return Err(format!("unknown op {op}")),
+	}
+	.map_err(|e| e.to_string())?;
+	Ok(((part(&r.value.real)?, part(&r.value.imag)?), r.exact))
+}
